@@ -460,7 +460,7 @@ def check_C07(ctx):
 # --------------------------------------------------------------------------- C14
 
 def check_C14(ctx):
-    cases, _ = ctx.tlc_mc("MC_C14", mc_cfg({}, ["Decided", "IncludeIsInlining", "NestedAndLoop", "EmptyIsIncluded", "ChangedFilesSeen", "CrossDirLaw", "TrimStopsAtTheEdge", "FailuresFail", "IncluderEnvKept", "ExactName",
+    cases, _ = ctx.tlc_mc("MC_C14", mc_cfg({}, ["Decided", "IncludeIsInlining", "NestedAndLoop", "EmptyIsIncluded", "ChangedFilesSeen", "CrossDirLaw", "TrimStopsAtTheEdge", "FailuresFail", "IncluderEnvKept", "ExactName", "TailKept",
                                                  "EmitCase"]))
     ctx.validate(ctx.run_cases(cases))
     return finish(ctx, rule="MC_C14: includer depth 0-2 x target in the same directory / below x argument as literal, variable, "
